@@ -27,7 +27,7 @@ Driver for C16.  Ops (one history per case; every token an integer, -1 = nil poi
   cfgx <mmKind> <muKind> <skipCheckExpectedReplicas> <n> <gate code>*      per-workload limit forms (0 nil/int, 1 percent, 2 malformed), SkipEvictionGates
   wl <id> <replicas> | pod <id> <node> <ns> <wl> <ready> <ann> [<terminating> <podphase>] | delpod <id> | ready <id> <b>
   term <id>                             pod gets a deletionTimestamp      | pphase <id> <podphase 0 Running 1 Pending 2 Succeeded 3 Failed>
-  restart                               new arbitrator + filter, Create event for every job in the API -> state block
+  restart                               new arbitrator + filter, Create event for every job in the API (a finished job is not taken in) -> state block
   job <id> <pod> <ns> <phase> <passedAnn> <arbitrated> <waiting> [<uid>]  direct creation; PodRef = namespace/name of pod <pod>
                                         (0 = nil PodRef, an id no pod has = resolves to nothing) and UID of pod <uid>
                                         (default <pod>; 0 = empty UID, an id no pod has = stale UID)
@@ -164,7 +164,7 @@ def runLine (d : DSt) (line : String) : DSt × List String :=
         ({ d with arb := { d.arb with pods := d.arb.pods.map fun p =>
             if p.id == id.toNat then { p with phase := ph.toNat } else p } }, [])
       | "restart", [] =>
-        let a' := { d.arb with arbitrated := [], waiting := d.arb.jobs.map (·.id) }
+        let a' := restart d.arb
         ({ d with arb := a' }, stateBlock a')
       | "delpod", [id] =>
         ({ d with arb := { d.arb with pods := d.arb.pods.filter fun p => p.id != id.toNat } }, [])
@@ -187,7 +187,7 @@ def runLine (d : DSt) (line : String) : DSt × List String :=
         | some pod =>
           let ok := arbFilter d.cfg d.arb pod
           let a := d.arb
-          let a' := if ok then handle { a with jobs := a.jobs ++ [⟨id.toNat, pod.id, pod.ns, 0, false, pod.id⟩] } (.create id.toNat)
+          let a' := if ok then handle { a with jobs := a.jobs ++ [⟨id.toNat, pod.id, pod.ns, 0, false, pod.id⟩] } (.create id.toNat 0)
                     else a
           ({ d with arb := a' }, [s!"filter {b2i ok}"])
       | "phase", [id, ph] =>
